@@ -112,6 +112,12 @@ class IteRef:
         raise Unsupported("write through a merged reference")
 
 
+# fail-closed budgets of one interpreter context (a change that makes the code explode is refused,
+# not followed until memory runs out)
+MAX_PATHS = 20000
+MAX_BLOCKS = 3000000
+
+
 class ForkRequest(Exception):
     """raised by a library model whose result depends on a symbolic condition:
     alts = [(z3 cond, value)] — the interpreter forks, one path per alternative"""
@@ -645,11 +651,17 @@ class Exec:
         fr.bb = item.order[0]
         work = [([fr], path)]
         done = []
+        budget = self.ctx.stats
         while work:
             stack, path = work.pop()
+            if len(work) + len(done) > MAX_PATHS:
+                raise Unsupported("path budget exceeded (%d live paths)" % (len(work) + len(done)))
             while True:
                 fr = stack[-1]
                 stmts, term = fr.item.blocks[fr.bb]
+                budget["blocks"] = budget.get("blocks", 0) + 1
+                if budget["blocks"] > MAX_BLOCKS:
+                    raise Unsupported("step budget exceeded (%d basic blocks interpreted)" % budget["blocks"])
                 for st in stmts:
                     self.stmt(fr, st, path)
                 self.cur_item = fr.item
